@@ -38,6 +38,7 @@ type readOpts struct {
 	reader1   string
 	plain     bool
 	warmFrac  float64 // fraction of the reads repeated in a second (warm) pass
+	fewRanges bool    // width 4 and more: a seeded third of the [from,to) ranges instead of all of them
 }
 
 // oracle runs reads of one case and reports into the shared report.
@@ -555,6 +556,9 @@ func (o *oracle) readAll(acc eds.AccessorStreamer, opt readOpts) {
 		for f := 0; f < n; f++ {
 			for t := f + 1; t <= n; t++ {
 				f, t := f, t
+				if opt.fewRanges && k >= 4 && o.rng.Intn(3) != 0 {
+					continue
+				}
 				add(true, "RangeNamespaceData", func() { o.rangeND(acc, &opt, f, t) })
 			}
 		}
@@ -825,6 +829,9 @@ func (o *oracle) getter(g *store.Getter, height uint64, opt readOpts, expectFoun
 		if !wide {
 			for f := 0; f < n; f++ {
 				for t := f + 1; t <= n; t++ {
+					if k >= 4 && o.rng.Intn(3) != 0 {
+						continue
+					}
 					rs = append(rs, [2]int{f, t})
 				}
 			}
